@@ -18,8 +18,8 @@ BUDGET_S = {'quick': 300, 'thorough': 3600}
 
 
 class LossMix(Mix):
-    def __init__(self, inters, fs, cut_points, kinds, bound_faults=1, **kw):
-        super().__init__(inters, 'tcp', fs, monitors_=(), **kw)
+    def __init__(self, inters, fs, cut_points, kinds, bound_faults=1, flavour='tcp', **kw):
+        super().__init__(inters, flavour, fs, monitors_=(), **kw)
         self.cut_points = cut_points
         self.kinds = kinds
         self.world_kw = dict(self.world_kw, fault_budget=bound_faults)
@@ -154,6 +154,13 @@ def make_units(tier):
                     K = 16
                     for k in range(K):
                         units.append({'name': name, 'inters': ins, 'fs': fs, 'kinds': list(kinds), 'cut_points': 'boundaries', 'bound': 2, 'shard': [k, K]})
+    # the QUIC transport is the other transport class that reports a lost connection to the engine (ConnectionTerminated)
+    for name, inters in mixes().items():
+        for fs in (None, 64):
+            for kinds in (('rst',), ('wr',), ('close',)):
+                ins = [dict(d, size='F' if fs else 'S') for d in inters]
+                units.append({'name': name, 'inters': ins, 'fs': fs, 'kinds': list(kinds), 'cut_points': 'all' if tier == 'thorough' else 'boundaries',
+                              'bound': 1, 'shard': [0, 1], 'flavour': 'quic'})
     return units
 
 
@@ -166,7 +173,7 @@ def bounds(tier):
 
 def scenario_of(unit):
     return LossMix([Inter.from_spec(_full(d)) for d in unit['inters']], unit['fs'], unit['cut_points'], tuple(unit['kinds']),
-                   alts=('all',) if unit['bound'] > 1 else (), modes=('Q',), name=unit['name'])
+                   alts=('all',) if unit['bound'] > 1 else (), modes=('Q',), name=unit['name'], flavour=unit.get('flavour', 'tcp'))
 
 
 def run_unit(unit, part):
@@ -175,7 +182,8 @@ def run_unit(unit, part):
 
 def scenario_from(name, params):
     return LossMix([Inter.from_spec(d) for d in params['inters']], params['fs'], params['cut_points'], tuple(params['fault_kinds']),
-                   bound_faults=params.get('faults', 1), alts=tuple(params['alts']), modes=tuple(params['modes']), name=name)
+                   bound_faults=params.get('faults', 1), alts=tuple(params['alts']), modes=tuple(params['modes']), name=name,
+                   flavour=params.get('flavour', 'tcp'))
 
 
 def replay(rec):
